@@ -296,6 +296,7 @@ def _job(args):
         mod = importlib.import_module(modname)
         h = next(x for x in mod.HARNESSES if x.name == hname)
         del PENDING_VALIDATION[:]
+        core.CROSS.update(budget=(4 if tier == "thorough" or os.environ.get("VERIF_CROSS") else 0), tally={}, disagreements=[])
         facade.install(getattr(mod, "EXTRA_STUBS", None))
         ex = core.Explorer(timeout_ms=h.timeout_ms, max_paths=h.max_paths,
                            product_abstraction=h.product_abstraction,
@@ -324,6 +325,8 @@ def _job(args):
         if ex.collected and not ex.truncated:
             ex.cex.extend(post_reach(ex, h.timeout_ms))
         out["stats"] = ex.stats.as_dict()
+        out["cross"] = dict(core.CROSS["tally"])
+        out["cross_disagreements"] = list(core.CROSS["disagreements"])[:3]
         out["truncated"] = ex.truncated
         out["unencodable"] = sorted(set(ex.unencodable))[:10]
         out["n_unencodable_paths"] = len(ex.unencodable)
@@ -455,6 +458,7 @@ def run_property(pid, modname, tier, seed, level_note, assumptions, bounds, only
     agg = core.Stats()
     violations, known_hits, unconfirmed, errors, inconclusive, candidates = [], [], [], [], [], []
     validated = 0
+    cross = {}        # cross-solver sample: verdicts of z3 4.8.12 / cvc5 on exported queries
     mismatches = []   # translator validation: real code violates a predicate on inputs of a path that was proven
     per_h = {}
     samples = []
@@ -489,6 +493,10 @@ def run_property(pid, modname, tier, seed, level_note, assumptions, bounds, only
             ph["inconclusive"] = sorted(set(ph["inconclusive"] + r["inconclusive"]))[:10]
             inconclusive.append(f"{r['harness']} {r['params']}: solver unknown for {r['inconclusive'][:5]}")
         validated += r.get("validated", 0)
+        for k_, v_ in (r.get("cross") or {}).items():
+            cross[k_] = cross.get(k_, 0) + v_
+        for dis in r.get("cross_disagreements") or []:
+            inconclusive.append(f"{r['harness']} {r['params']}: cross-solver disagreement: {dis}")
         for mm in r.get("validation_mismatch", []) or []:
             # a real-code violation that belongs to an open known finding of this harness is that finding, not an
             # encoding disagreement
@@ -617,6 +625,7 @@ def run_property(pid, modname, tier, seed, level_note, assumptions, bounds, only
                         "checked for ALL values of the symbolic inputs on each path.",
             exhaustive=not inconclusive and not errors and not broken and not mismatches,
             validation_mismatches=mismatches[:10],
+            cross_solver_sample=cross,
             obligations=tot["obligations"], discharged=tot["proved"],
             queries_by_verdict=dict(unsat=tot["unsat"], sat=tot["sat"], unknown=tot["unknown"]),
             solver_seconds=tot["solver_s"], solver="z3 " + z3.get_version_string(),
